@@ -21,6 +21,41 @@ _MC = ("TLC explores the bounded %s specification exhaustively (design check of 
        "real bio-rd objects with the complete projected state compared after each step")
 
 CHECKS = {
+    "C30": {
+        "text": "ISISWire defines abstract IS-IS PDUs (P2P hello, L2 LSP, CSNP, PSNP: class of fixed values zero/typical/all-ones + TLV "
+                "descriptors [kind, items, width]) and their byte layout (field sizes -> total length, PDU length field, offset of every "
+                "TLV, every field boundary); TLC checks the laws of the layout (field sizes add up to the declared TLV length, offsets "
+                "are boundaries, everything fits its length field, every mutation lies inside the PDU) and enumerates (1) every hello / "
+                "LSP within two parameter changes of the base + seeded random ones, (2) CSNP/PSNP for n in {0..5,7,15,16,17,31,32,100} "
+                "entries x {1,2,3,5,MTU} entries per PDU, (3) the mutations of valid PDUs: truncation at every field boundary, TLV length "
+                "0/1/true-1/true+1/255, TLV type replaced by every known and some unknown types, area length bytes, PDU length "
+                "0/true-1/true+1/65535, every other PDU type, header bytes, trailing bytes, every single byte 0/1/255. The adapter "
+                "builds each PDU with the package's constructors (NewCSNPs/NewPSNPs for the sequence-number PDUs), serialises it with "
+                "Serialize behind the LLC header and decodes it with packet.Decode: header, fixed fields, PDU length, checksum and per "
+                "TLV type the items (typed decoders) or value bytes (TLVs the decoder returns opaquely) must come back; how a list is "
+                "split over TLVs/PDUs is free. Mutated bytes must yield a PDU or an error (panic / hang = divergence).",
+        "note": "Trusted: TLC; the adapter's value generator and content projection. Limit: the structured mutation space of the grammar, "
+                "not all byte strings. TLV contents are bounded by what fits one TLV (255 bytes): that the LSP generator of isis/server "
+                "does not split larger lists is outside this check. LAN hellos are not serialised by bio-rd and not covered.",
+        "technique": "TLA+ wire grammar ISISWire enumerated by TLC; per-case replay against isis/packet Serialize / Decode",
+    },
+    "C33": {
+        "text": "ISISIfa models the interfaces of an IS-IS server (operational state, running, ethernet handle, hello sender, adjacency) with "
+                "one action per event: LinkUp / LinkDown (a device update; start/stop on state change), HelloTick (one hello interval of "
+                "the mock clock, all timers of the server run), FormAdj (the neighbour's two hellos of the handshake). TLC checks "
+                "RunningIffUp, SenderIffActiveUp, HandleIffSender, AdjNeedsLink, HelloAfterUp, CanFormAdj and emits ALL paths (no VIEW): "
+                "every up/down sequence of length 0..6 on a server with one active / one passive interface and 0..4 with both, each "
+                "followed by tick - neighbour hellos - tick, all interleavings of the four actions to length 5 (3 with two interfaces) "
+                "and seeded random behaviours with three interfaces. Each behaviour runs in its own process against isis/server.Server "
+                "(device.MockServer events, mock ethernet factory, SetClock): after every step the server must answer, after HelloTick "
+                "every active interface whose link is up must have put a P2P hello on the wire, after FormAdj the adjacency must be up, "
+                "after LinkDown it must not be; a panic anywhere in the process (including the server's goroutines) or a hang is a "
+                "divergence with the innermost bio-rd frame as class.",
+        "note": "Trusted: the repository's mocks (device.MockServer, ethernet.MockEthernetInterface, benbjohnson mock clock); real-time "
+                "waits of 4 s for a hello / an adjacency. Absence of hellos on down or passive interfaces is not demanded (the property "
+                "does not state it). AddInterface/RemoveInterface at run time are not part of the property and not driven.",
+        "technique": "TLA+ spec ISISIfa + TLC (all paths); behaviour replay in isolated processes against isis/server with mock device, ethernet and clock",
+    },
     "C23": {
         "text": _MC % "BGPFSM" + " (invariants AttachedIffEstablished, RoutesOnlyWhileEstablished, IdleClosed; action properties "
                 "LeavingEstablished, ErrorsAreNotified; the machine is finite and explored completely). " + SESS,
